@@ -141,11 +141,12 @@ impl Property for C01 {
         "C01"
     }
     fn rule(&self) -> &'static str {
-        "grid: key = PDU length 0..=4100; for each: 5 label cases (6-byte, 3-byte, broadcast, 6-byte primed, 3-byte primed = re-use substitution when enabled) x 7 buffer sizes (exact-1, exact, exact+1 for the label as written, 4097, 4098, 65536, 70000) x re-use on/off x storage (== PDU, +1, 70000); random: seeded cells over all protocol types >= 0x0600, 5 content classes, random buffer/storage; traffic: the round trip of a complete packet at the end of a seeded lock-step history (fragment trains in flight or completed in between, re-use substitutions, resets, configuration changes); ptypes (thorough): every protocol type 0x0600..=0xFFFF at three PDU sizes. Non-trivial = encap returned a completed packet that was fed to decap and compared (outcome 'delivered'); fingerprint = (pdu length, label case, buffer, re-use, storage) or (ptype,size)."
+        "grid: key = PDU length 0..=4100; for each: 5 label cases (6-byte, 3-byte, broadcast, 6-byte primed, 3-byte primed = re-use substitution when enabled) x 7 buffer sizes (exact-1, exact, exact+1 for the label as written, 4097, 4098, 65536, 70000) x re-use on/off x storage (== PDU, +1, 70000); random: seeded cells over all protocol types >= 0x0600, 5 content classes, random buffer/storage; longrun: 800 complete packets with one label under re-use limits 0,1,2,3,254,255; traffic: the round trip of a complete packet at the end of a seeded lock-step history (fragment trains in flight or completed in between, re-use substitutions, resets, configuration changes); ptypes (thorough): every protocol type 0x0600..=0xFFFF at three PDU sizes. Non-trivial = encap returned a completed packet that was fed to decap and compared (outcome 'delivered'); fingerprint = (pdu length, label case, buffer, re-use, storage) or (ptype,size)."
     }
     fn gens(&self, cx: &Cx) -> Vec<Gen> {
         let mut g = vec![Gen { name: "grid", count: 4101, exhaustive: true }, Gen { name: "random", count: cx.n(100_000, 6_000_000), exhaustive: false }];
         g.push(Gen { name: "traffic", count: cx.n(30_000, 1_000_000), exhaustive: false });
+        g.push(Gen { name: "longrun", count: 24, exhaustive: true });
         if !cx.quick() {
             g.push(Gen { name: "ptypes", count: 0x10000 - 0x600, exhaustive: true });
         }
@@ -230,6 +231,48 @@ impl Property for C01 {
                     if key < 3 {
                         rep.sample(|| format!("random: pdu {}B {} label {} primed={} reuse_on={} ptype {:#06x} buffer {}B storage {}B -> delivered intact", plen, hex_short(&pdu, 16), label_str(&label), prime, reuse_on, ptype, buf_len, storage));
                     }
+                }
+            }
+            "longrun" => {
+                // long runs of complete packets with the same label under every kind of re-use limit (incl. the
+                // 8-bit boundary 254 / 255): every packet must complete and round-trip with its label
+                let n_max = [0u8, 1, 2, 3, 254, 255][(key % 6) as usize];
+                let label = gen_label(&mut rng, [0usize, 2, 3, 1][(key / 6) as usize]);
+                let mut enc = Encapsulator::new(DefaultCrc {});
+                enc.enable_re_use_label_with_max_consecutive(n_max);
+                let mut dec = plain_dec(1, 32, 1, 32, MandTable::none());
+                let mut full_labels = 0u64;
+                for i in 0..800usize {
+                    rep.eval();
+                    let plen = i % 20;
+                    let pdu = gen_pdu(&mut rng, plen, 0);
+                    let mut buf = [0u8; 64];
+                    let r = enc_guard(&mut enc, &pdu, 1, EncapMetadata::new(0x0800, label), &mut buf);
+                    let nrep = match &r {
+                        Ok(Ok(EncapStatus::CompletedPkt(k))) => *k as usize,
+                        other => {
+                            rep.violation("C01", format!("must-complete:long-run:{}", label_kind_name(&label)), || format!("packet {} of a run of complete packets with label {} and a maximum of {} consecutive re-uses: encap = {} although everything fits", i, label_str(&label), n_max, enc_res_str(other)), &replay);
+                            return;
+                        }
+                    };
+                    if wire::lt_of_word(u16::from_be_bytes([buf[0], buf[1]])) != 3 {
+                        full_labels += 1;
+                    }
+                    let d = dec_guard(&mut dec, &buf[..nrep]);
+                    match d {
+                        Ok(Ok((DecapStatus::CompletedPkt(b, m), c))) if c == nrep && m.pdu_len() == plen && b[..plen] == pdu[..] && m.label() == label => {
+                            give_back(&mut dec, b);
+                        }
+                        other => {
+                            rep.violation("C01", format!("fidelity:long-run:{}", label_kind_name(&label)), || format!("packet {} of a run with label {} (max {} consecutive re-uses) not delivered intact: {}", i, label_str(&label), n_max, dec_res_str(&other)), &replay);
+                            return;
+                        }
+                    }
+                }
+                rep.count_n("longrun.full-labels", full_labels);
+                rep.nontrivial(mix(0x10A6, key));
+                if key == 5 {
+                    rep.sample(|| format!("longrun: 800 complete packets with label {}, max 255 consecutive re-uses -> all delivered, {} carried the full label", label_str(&label), full_labels));
                 }
             }
             "traffic" => {
